@@ -124,6 +124,18 @@ pub fn check_state(sim: &mut Sim, snap: &VerifSnapshot, m: Mon, ex: &mut Exercis
         if fin != all_fin {
             v.push(viol("C17", "is-finished-mismatch", format!("is_finished {} but all jobs finished {}", fin, all_fin)));
         }
+        match sim.eng.next_job_ready_to_run() {
+            Some(x) => {
+                if !ready.contains(&x) {
+                    v.push(viol("C17", "next-job-not-ready", format!("next_job_ready_to_run() = {} is not in the ready set {:?}", x, ready)));
+                }
+            }
+            None => {
+                if !ready.is_empty() {
+                    v.push(viol("C17", "next-job-none", format!("next_job_ready_to_run() = None although the ready set is {:?}", ready)));
+                }
+            }
+        }
         let mut snap_ready: Vec<String> = ready.iter().cloned().collect();
         snap_ready.sort();
         if snap_ready != snap.ready_to_run {
